@@ -32,6 +32,9 @@ type c11Case struct {
 	Req         vlib.Req            `json:"request"`
 	Handler     c11Handler          `json:"handler"`
 	Preset      map[string][]string `json:"preset,omitempty"`
+	// Stacked: what the middleware wraps is itself the Wrap result of another middleware (a zero-value one, i.e. the
+	// identity); and the whole is wrapped once more by a third zero-value middleware
+	Stacked bool `json:"stacked_on_passthrough_middlewares,omitempty"`
 }
 
 type c11Inner struct {
@@ -131,6 +134,9 @@ func c11Judge(k c11Case) *vlib.Failure {
 	}
 	inner := &c11Inner{spec: k.Handler}
 	h := bm.wrap(inner)
+	if k.Stacked {
+		h = new(cors.Middleware).Wrap(bm.wrap(new(cors.Middleware).Wrap(inner)))
+	}
 	inner.self = h
 	rec := vlib.NewRec()
 	// the earlier link of the chain stores value slices that it keeps (w.Header()[k] = v): the middleware may replace
@@ -425,6 +431,7 @@ func checkC11(c *vlib.Ctx) (string, string) {
 		ix := ap.At(i, tmp[:0])
 		x := dcds[ix[0]]
 		ck.Try(c11Case{Passthrough: x.pass, Cfg: x.lit, Debug: x.dbg, Req: areqs[ix[1]], Handler: handlers[ix[2]]})
+		ck.Try(c11Case{Passthrough: x.pass, Cfg: x.lit, Debug: x.dbg, Req: areqs[ix[1]], Handler: handlers[ix[2]], Stacked: true})
 	})
 	c.Set("attribute_cells", ap.Count())
 	c.States.Add(c.Evaluations.Load())
